@@ -560,3 +560,1791 @@ for pid, runner, extra in [
         partial_hypotheses=["only the operator-bracketing core is proved so far; the remaining composition (lexer, statement parser, emit, layout) is covered by the oracle streams"],
     )
 NOT_YET: dict[str, str] = {}
+
+
+# =========================================================================== lexical oracle (C05 C07 C16 C20)
+import re
+
+from tumfl.lexer import Lexer
+
+LUA_WS = " \t\n\r\f\v"
+KW_TYPES = {t for t in TokenType if t.value.isalpha() and t.value not in ("name", "number", "eof", "string")}
+_TOKRE = re.compile(r"\((kw|sym|name|str|num|eof)( [^@]*)? @ (\d+) (\d+) \(([0-9a-fc ]*)\)\)")
+
+
+def parse_reflex(ans: str):
+    """'ok (..) (..)' -> list of (kind, value, line, col, [comment texts])"""
+    assert ans.startswith("ok ")
+    out = []
+    for m in _TOKRE.finditer(ans):
+        kind, val, line, col, cm = m.groups()
+        comments = [bytes.fromhex(h[1:]).decode("utf-8") for h in cm.split()]
+        out.append((kind, (val or "").strip(), int(line), int(col), comments))
+    return out
+
+
+def tlex(src: str, typed: bool = False):
+    """tumfl's token stream: ('ok', tokens) | ('lexer', e) | ('other', e)"""
+    toks = []
+    with quiet():
+        try:
+            lx = Lexer(src, typed)
+            while True:
+                t = lx.get_next_token()
+                toks.append(t)
+                if t.type == TokenType.EOF:
+                    return "ok", toks
+                if len(toks) > len(src) + 5:
+                    return "other", RuntimeError("lexer does not advance")
+        except LexerError as e:
+            return "lexer", e
+        except Exception as e:  # noqa: BLE001
+            return "other", e
+
+
+def tok_key(t: Token):
+    if t.type == TokenType.EOF:
+        return ("eof", "")
+    if t.type == TokenType.NAME:
+        return ("name", t.value)
+    if t.type == TokenType.STRING:
+        return ("str", " ".join(absast.units(t.value)))
+    if t.type == TokenType.NUMBER:
+        return ("num", absast.numval(*t.value))
+    if t.type in KW_TYPES:
+        return ("kw", t.value)
+    return ("sym", t.value)
+
+
+def spec_in_scope(toks) -> bool:
+    """no raw byte >= 128, no code point beyond U+10FFFF, no surrogate in any string token"""
+    for kind, val, *_ in toks:
+        if kind == "str":
+            for u in val.split():
+                if u.startswith("B"):
+                    return False
+                c = int(u, 16)
+                if c > 0x10FFFF or 0xD800 <= c <= 0xDFFF:
+                    return False
+    return True
+
+
+def eval_lex(st: fw.Stream, srcs: list[str], *, values=True, positions=True, comments=True, meta: dict | None = None):
+    """Compare tumfl's token stream with the Lean Spec lexer's on the same text."""
+    answers = drive([("reflex", hx(s)) for s in srcs])
+    for src, ans in zip(srcs, answers):
+        case = {"kind": "lex", "source": src, **(meta or {})}
+        status, toks = tlex(src)
+        if status == "other":
+            st.record(case, key=src)
+            st.fail(f"lexer raised {type(toks).__name__}: {toks}", case)
+            continue
+        if not ans.startswith("ok"):
+            st.record(case, key=src)
+            # Lua rejects the text lexically: tumfl must raise LexerError
+            if status == "ok":
+                st.fail("text that Lua rejects lexically was tokenised without error", dict(case, spec=ans))
+            continue
+        ref = parse_reflex(ans)
+        if not spec_in_scope(ref):
+            st.record(case, key=src, nontrivial=False)
+            if status == "ok":
+                # out of tumfl's documented scope: must not be silently mis-decoded
+                mine = [tok_key(t) for t in toks]
+                if mine != [(k, v) for k, v, *_ in ref]:
+                    st.fail("byte escape outside ASCII was accepted and decoded differently", dict(case, spec=ans[:500]))
+            continue
+        st.record(case, key=src)
+        if status != "ok":
+            st.fail(f"valid text rejected by the lexer: {toks}", case)
+            continue
+        if len(toks) != len(ref):
+            st.fail("different number of tokens", dict(case, tumfl=[tok_key(t) for t in toks][:60], spec=ans[:1500]))
+            continue
+        for t, (kind, val, line, col, cms) in zip(toks, ref):
+            if values and tok_key(t) != (kind, val):
+                st.fail("token kind/value differs from what Lua reads", dict(case, tumfl=tok_key(t), spec=(kind, val), at=(line, col)))
+                break
+            if positions and kind != "eof" and (t.line, t.column) != (line, col):
+                st.fail("token position does not designate its first character", dict(case, token=tok_key(t), tumfl_pos=(t.line, t.column), spec_pos=(line, col)))
+                break
+            if positions and kind == "eof":
+                nl = src.count("\n") + 1
+                if not (1 <= t.line <= nl):
+                    st.fail("end-of-file token outside the text", dict(case, tumfl_pos=(t.line, t.column)))
+                    break
+            if comments:
+                mine = [c.strip(LUA_WS) for c in t.comment]
+                theirs = [c.strip(LUA_WS) for c in cms]
+                if mine != theirs:
+                    st.fail("comments attached to a token differ", dict(case, token=tok_key(t), at=(line, col), tumfl=mine, spec=theirs))
+                    break
+
+
+# =========================================================================== C05 string literals and comments
+STR_ITEMS = ["a", "0", "9", "f", "F", "x", "u", "z", " ", "\t", "{", "}", "[", "]", "=", "-",
+             "\\a", "\\b", "\\f", "\\n", "\\r", "\\t", "\\v", "\\\\", "\\\"", "\\'", "\\\n", "\\z", "\\z ", "\\z\n\t ",
+             "\\0", "\\9", "\\65", "\\065", "\\127", "\\128", "\\255", "\\256", "\\999",
+             "\\x41", "\\x4a", "\\x7F", "\\x80", "\\xff", "\\x4", "\\xg1", "\\x",
+             "\\u{41}", "\\u{0041}", "\\u{e9}", "\\u{4e2d}", "\\u{1F600}", "\\u{10FFFF}", "\\u{110000}", "\\u{7FFFFFFF}",
+             "\\u{80000000}", "\\u{000000041}", "\\u{}", "\\u{4g}", "\\u{41", "\\u41", "\\u",
+             "\\q", "\\1a", "\\ ", "\\", "\n", "\"", "'", "é", "中", "😀", "\x00", "\x7f", "\x1b"]
+
+
+def c05_literals(max_items: int, r: random.Random | None = None, sample: int | None = None):
+    out = []
+    for n in range(0, max_items + 1):
+        combos = itertools.product(STR_ITEMS, repeat=n)
+        for combo in combos:
+            body = "".join(combo)
+            for q in "\"'":
+                out.append(q + body + q)
+    if sample is not None and r is not None and len(out) > sample:
+        out = r.sample(out, sample)
+    return out
+
+
+def c05_long_brackets():
+    bodies = ["", "a", "\n", "\na", "\n\na", "a\n", "]", "]]", "]=]", "]==]", "[[", "[=[", "]=", "=]", "a]b]]c", "x]=]y]==]z",
+              "\\n", "\\", "--", "\"'", "]\n]", " \n ", "é中😀", "\x00"]
+    out = []
+    for lvl in range(0, 5):
+        op, cl = "[" + "=" * lvl + "[", "]" + "=" * lvl + "]"
+        for b in bodies:
+            out.append(op + b + cl)
+            out.append(op + b)          # unterminated
+        out.append(op)
+    out += ["[=", "[==", "[=x", "[ [", "[", "[=]", "[]"]
+    return out
+
+
+def c05_comments():
+    heads = ["--", "---", "--[", "--[=", "--[==", "--[=x", "--[ [", "--[]", "--[=]", "-- [[", "--\t[[", "--[[", "--[=[", "--[==[",
+             "--[[ ]]", "--[[]]", "--[=[ ]] ]=]", "--[==[\n]==]", "--[[ a\nb ]]", "--[=[ ]=", "--[[ ]=]", "--[[ ] ]", "--]]", "--'", "--\"",
+             "--[[\n--]]", "--[==[ ]=] ]] ]==]", "--[", "-- é中"]
+    tails = ["", "\n", "\nx", " x\ny", "]]\nz", "\n--[[ c ]] y", " ]] w"]
+    out = []
+    for h in heads:
+        for t in tails:
+            out.append(h + t)
+            out.append("a " + h + t)
+    return out
+
+
+def c05_codepoints(r: random.Random, n: int | None):
+    """strings holding raw code points and the same code points as \\u{} escapes"""
+    pts = [c for c in range(0, 0x110000) if not (0xD800 <= c <= 0xDFFF)]
+    if n is not None:
+        special = [0, 1, 9, 10, 13, 31, 32, 34, 39, 92, 126, 127, 128, 159, 160, 255, 256, 0x7FF, 0x800, 0xD7FF, 0xE000,
+                   0xFFFD, 0xFFFF, 0x10000, 0x10FFFF, 0x2028, 0x2029, 0x85, 0x1c, 0x1d, 0x1e, 0x1f, 0xFEFF]
+        pts = special + r.sample(pts, n)
+    out = []
+    for i in range(0, len(pts), 500):
+        part = pts[i:i + 500]
+        raw = "".join(chr(c) for c in part if c not in (10, 13, 34, 92))
+        out.append('"' + raw + '"')
+        out.append('"' + "".join("\\u{%x}" % c for c in part) + '"')
+        out.append("[==[" + "".join(chr(c) for c in part if c != 13) + "]==]")
+    return out
+
+
+def run_c05(ctx: fw.Ctx) -> None:
+    r = ctx.rng("c05")
+    st = ctx.stream("quoted literals: all sequences of escape/neighbour items" + (" up to 2 items" if ctx.quick else " up to 3 items"))
+    lits = c05_literals(2) if ctx.quick else c05_literals(3)
+    eval_lex(st, lits, positions=False)
+    st.exhaustive = True
+    st.notes["item_alphabet"] = len(STR_ITEMS)
+    if ctx.quick:
+        st_s = ctx.stream("quoted literals: sample of 3- and 4-item sequences")
+        more = []
+        for _ in range(6000):
+            k = r.choice([3, 4])
+            q = r.choice("\"'")
+            more.append(q + "".join(r.choice(STR_ITEMS) for _ in range(k)) + q)
+        eval_lex(st_s, more, positions=False)
+    st2 = ctx.stream("long brackets level 0..4 with foreign closers, leading newline, unterminated")
+    lb = c05_long_brackets()
+    eval_lex(st2, lb + ["x = " + s + " y" for s in lb], positions=False)
+    st2.exhaustive = True
+    st3 = ctx.stream("comment opener shapes")
+    eval_lex(st3, c05_comments(), positions=False)
+    st3.exhaustive = True
+    st4 = ctx.stream("code points raw and via \\u{}" + (" (boundaries + sample)" if ctx.quick else " (all 1112064 scalar values)"))
+    eval_lex(st4, c05_codepoints(r, 3000 if ctx.quick else None), positions=False)
+    st4.exhaustive = not ctx.quick
+    st5 = ctx.stream("random literals from the program generator")
+    g = gen.ProgGen(r, gen.Cfg())
+    eval_lex(st5, [g.string().text for _ in range(ctx.n(2000, 40000))], positions=False)
+
+
+register(
+    "C05",
+    run=run_c05,
+    modules=["Tumfl.Props.C11"],
+    obligations=["Tumfl.Props.C11_roundtrip"],
+    rule="literal spellings built from an alphabet of escape forms and neighbour characters (exhaustive up to 2/3 items), long brackets, "
+         "comment openers, code points; oracle: the Lean Spec lexer (llex.c rules) on the same text; a case is non-trivial if the Spec "
+         "accepts it with an in-scope value or rejects it (tumfl must then raise LexerError); distinct = distinct literal texts",
+    partial_hypotheses=["no theorem about the model scanner yet"],
+)
+
+
+# =========================================================================== C06 string values -> literals
+def dh(s: str) -> int:
+    import zlib
+    return zlib.crc32(s.encode("utf-8", "surrogatepass"))
+
+
+def T(tt=TokenType.NAME, v="x"):
+    return Token(tt, v, 1, 1)
+
+
+def string_contexts(v: str) -> list[tuple[str, A.Chunk]]:
+    """the same String value in every position the property names"""
+    S = lambda: A.String(T(TokenType.STRING, v), v)  # noqa: E731
+    N = lambda n: A.Name(T(), n)  # noqa: E731
+    stmts = {
+        "operand": A.Assign(T(), [N("x")], [A.BinOp(T(), A.BinaryOperand.CONCAT, S(), N("y"))]),
+        "call-argument": A.FunctionCall(T(), N("f"), [S()]),
+        "call-two-arguments": A.FunctionCall(T(), N("f"), [S(), S()]),
+        "method-call-argument": A.MethodInvocation(T(), N("o"), N("m"), [S()]),
+        "index": A.Assign(T(), [A.Index(T(), N("t"), S())], [N("y")]),
+        "table-key": A.Assign(T(), [N("x")], [A.Table(T(), [A.ExplicitTableField(T(), S(), N("y"))])]),
+        "table-value": A.Assign(T(), [N("x")], [A.Table(T(), [A.NumberedTableField(T(), S()), A.NamedTableField(T(), N("k"), S())])]),
+        "method-receiver": A.MethodInvocation(T(), S(), N("rep"), [A.Number(T(), False, "2")]),
+        "return": None,
+        "nested-blocks": None,
+    }
+    out = []
+    for name, s in stmts.items():
+        if name == "return":
+            c = A.Chunk(T(), [], [S()])
+        elif name == "nested-blocks":
+            inner = A.Block(T(), [A.FunctionCall(T(), N("f"), [S(), N("a")])], None)
+            for _ in range(3):
+                inner = A.Block(T(), [inner], None)
+            c = A.Chunk(T(), [inner], None)
+        else:
+            c = A.Chunk(T(), [s], None)
+        c.parent(None)
+        out.append((name, c))
+    return out
+
+
+C06_ALPHABET = ["a", " ", "\n", "\"", "'", "\\", "]", "[", "=", "\t", "é", "\x00", "0", "😀"]
+
+
+def eval_ast_roundtrip(st: fw.Stream, cases: list[tuple[dict, A.Chunk, dict | str | None]]):
+    """cases: (description, chunk AST, style). Oracle: Spec parse of format(chunk) == abs(chunk)."""
+    todo = []
+    for desc, ch, sd in cases:
+        want = "ok " + absast.abs_chunk(ch)
+        sty = None if sd is None else (MinifiedStyle if sd == "min" else mkstyle(sd))
+        status, out = tformat(ch, sty)
+        d = dict(desc, style=sd)
+        st.record(d, key=json.dumps(d, sort_keys=True, default=str))
+        if status != "ok":
+            st.fail(f"format raised or did not terminate: {status} {out!r}", d)
+            continue
+        todo.append((d, want, out))
+    got = refparse([t[2] for t in todo])
+    for (d, want, out), g in zip(todo, got):
+        if g != want:
+            st.fail("literal reads back as a different value" if g.startswith("ok") else "output is not valid Lua",
+                    dict(d, output=out[:3000], reparsed=g[:2000], expected=want[:2000]))
+
+
+def c06_styles(r: random.Random | None = None) -> list:
+    out: list = [None, "min"]
+    for q in (False, True):
+        for nl in (0, 1, 4):
+            for w in (0, 1, 7, 20, 120):
+                out.append(dict(USE_SINGLE_QUOTE=q, NEWLINE_LIMIT=nl, LINE_WIDTH=w, USE_CALL_SHORTHAND=(w % 2 == 1 or nl == 1),
+                                REMOVE_UNNECESSARY_CHARS=(nl == 0), INDENTATION="\t" if w != 20 else "    "))
+    return out
+
+
+def run_c06(ctx: fw.Ctx) -> None:
+    r = ctx.rng("c06")
+    styles = c06_styles()
+    maxlen = 3 if ctx.quick else 4
+    st = ctx.stream(f"all strings over the adversarial alphabet up to length {maxlen} x 2 base styles x contexts")
+    values = ["".join(c) for n in range(0, maxlen + 1) for c in itertools.product(C06_ALPHABET, repeat=n)]
+    cases = []
+    for v in values:
+        ctxs = string_contexts(v)
+        # all contexts for short values, a rotating context for the rest (the literal text does not depend on it)
+        pick = ctxs if len(v) <= 2 else [ctxs[dh(v) % len(ctxs)]]
+        for name, ch in pick:
+            for sd in (None, "min"):
+                cases.append(({"value": v, "context": name}, ch, sd))
+    eval_ast_roundtrip(st, cases)
+    st.exhaustive = True
+    st2 = ctx.stream("strings up to length 3 x quote preference x newline limit x line width")
+    cases = []
+    vals3 = [v for v in values if len(v) <= (2 if ctx.quick else 3)]
+    for v in vals3:
+        ctxs = string_contexts(v)
+        for sd in styles[2:]:
+            name, ch = ctxs[(dh(v) + sd["LINE_WIDTH"]) % len(ctxs)]
+            cases.append(({"value": v, "context": name}, ch, sd))
+    eval_ast_roundtrip(st2, cases)
+    st3 = ctx.stream("random strings up to length 400 x styles x contexts")
+    cases = []
+    pool = C06_ALPHABET + ["b", "c", " ", " ", "\n", "]]", "]=]", "\\n", "\r", "\x7f", "\x1f", " ", " ", "中", "z", "9", "x41", "u{", "}"]
+    for _ in range(ctx.n(500, 6000)):
+        n = r.choice([1, 5, 10, 30, 80, 200, 400])
+        v = "".join(r.choice(pool) for _ in range(n))
+        if r.random() < 0.3:
+            v = v.replace("\n", " ")
+        name, ch = r.choice(string_contexts(v))
+        cases.append(({"value": v, "context": name}, ch, r.choice(styles)))
+    eval_ast_roundtrip(st3, cases)
+    if not ctx.quick:
+        st4 = ctx.stream("all strings of length 5 over a reduced alphabet x default/minified")
+        red = ["a", " ", "\n", "\"", "\\", "]", "=", "é"]
+        cases = []
+        for c in itertools.product(red, repeat=5):
+            v = "".join(c)
+            name, ch = string_contexts(v)[dh(v) % 10]
+            cases.append(({"value": v, "context": name}, ch, "min" if dh(v) % 2 else None))
+        eval_ast_roundtrip(st4, cases)
+        st4.exhaustive = True
+
+
+register(
+    "C06",
+    run=run_c06,
+    modules=["Tumfl.Props.C11"],
+    obligations=["Tumfl.Props.C11_roundtrip"],
+    rule="String nodes built directly with the value, placed in 10 syntactic contexts, formatted under styles varying quote preference, "
+         "newline limit and line width; oracle: the Lean Spec reads the literal back and the whole tree is compared; distinct = (value, context, style)",
+    partial_hypotheses=["no theorem about the model writer yet"],
+)
+
+
+# =========================================================================== C07 numerals
+def numerals_upto(maxlen: int, dec_digits: str, hex_digits: str, k2: bool = False, k3: bool = False):
+    """all numerals of the Lua grammar up to maxlen characters over the given digit alphabets"""
+    out = set()
+
+    def runs(alpha: str, lo: int, hi: int):
+        for n in range(lo, hi + 1):
+            for c in itertools.product(alpha, repeat=n):
+                yield "".join(c)
+
+    def exps(marks: str, budget: int):
+        yield ""
+        for m in marks:
+            for sign in ("", "+", "-"):
+                for d in runs("019", 1, max(0, budget - 1 - len(sign))):
+                    if 1 + len(sign) + len(d) <= budget:
+                        yield m + sign + d
+
+    for prefix, alpha, marks in (("", dec_digits, "eE"), ("0x", hex_digits, "pP"), ("0X", hex_digits, "pP")):
+        room = maxlen - len(prefix)
+        if room <= 0:
+            continue
+        for ip in runs(alpha, 0, room):
+            for dot in ("", "."):
+                fr_hi = room - len(ip) - len(dot) if dot else 0
+                for fp in (runs(alpha, 0, max(fr_hi, 0)) if dot else [""]):
+                    if not ip and not fp:
+                        continue
+                    if not ip and not prefix and not dot:
+                        continue
+                    mant = ip + dot + fp
+                    for e in exps(marks, room - len(mant)):
+                        s = prefix + mant + e
+                        if len(s) > maxlen:
+                            continue
+                        if dot and not fp and not e and not k2:
+                            continue
+                        if prefix and not ip and not k3:
+                            continue
+                        if not prefix and not ip and not dot:
+                            continue
+                        out.add(s)
+    return sorted(out)
+
+
+BOUNDARY_NUMERALS = [
+    "9223372036854775807", "9223372036854775808", "18446744073709551615", "18446744073709551616",
+    "0x7fffffffffffffff", "0x8000000000000000", "0xffffffffffffffff", "0x10000000000000000", "0x10000000000000001",
+    "0xFFFFFFFFFFFFFFFFFF", "0x1p-1074", "0x0.8p-1073", "0x1.fffffffffffffp1023", "4.9e-324", "2.2250738585072014e-308",
+    "1.7976931348623157e308", "1e309", "1e-400", "0e0", "0x0p0", "00012", "0x0000A", "1E+0", "1e-0", "0.1e1", "00.500",
+    "3.14159265358979323846264338327950288", "0x3.243F6A8885A308D313198A2E03707344A4093822299F", "1e0000000000001",
+    "0xAbCdEf", "0XaBc.DeFp+10", "12345678901234567890123456789012345678901234567890", ".0", "0.", "0x.0p0", "1e+308", "5e-1",
+]
+
+
+def numeral_contexts(n: str) -> list[str]:
+    return [f"x = {n}", f"x = {n} .. 'a'", f"x = {n} or y", f"t = {{[{n}] = {n}, {n}}}", f"x = -{n} ^ {n}",
+            f"return {n}", f"f({n}, {n})", f"for i = {n}, {n} do end", f"x = {n} and{n}" if False else f"x = {n} == {n}"]
+
+
+def run_c07(ctx: fw.Ctx) -> None:
+    r = ctx.rng("c07")
+    if ctx.quick:
+        nums = numerals_upto(5, "019", "09aF")
+        desc = "all numerals up to 5 characters over the reduced alphabet 0 1 9 / 0 9 a F"
+    else:
+        nums = numerals_upto(6, "019", "09aF") + numerals_upto(4, "0123456789", "0123456789abcdefABCDEF")
+        nums = sorted(set(nums))
+        desc = "all numerals up to 6 characters over the reduced alphabet and up to 4 over the full alphabet"
+    st = ctx.stream(desc + " (without the K2/K3 forms)")
+    progs = []
+    for n in nums:
+        cs = numeral_contexts(n)
+        progs.append(cs[0])
+        progs.append(cs[1 + dh(n) % (len(cs) - 1)])
+    eval_programs(ctx, st, progs, [None, "min"], check_tree=True, check_format=True)
+    st.exhaustive = True
+    st.notes["numerals"] = len(nums)
+    st2 = ctx.stream("boundary values and random long digit strings x all contexts")
+    rnd = []
+    for _ in range(ctx.n(150, 3000)):
+        hexa = r.random() < 0.4
+        alpha = "0123456789abcdefABCDEF" if hexa else "0123456789"
+        ip = "".join(r.choice(alpha) for _ in range(r.choice([1, 3, 17, 20, 40, 400])))
+        fp = "." + "".join(r.choice(alpha) for _ in range(r.choice([1, 2, 30]))) if r.random() < 0.5 else ""
+        e = (r.choice("pP" if hexa else "eE") + r.choice(["", "+", "-"]) + str(r.randint(0, 2000))) if r.random() < 0.5 else ""
+        rnd.append(("0x" if hexa else "") + ip + fp + e)
+    b = [n for n in BOUNDARY_NUMERALS if not (n.endswith(".") and "p" not in n.lower() and "e" not in n.lower())]
+    progs = [c for n in b + rnd for c in numeral_contexts(n) if not (n.lower().startswith("0x.") )]
+    eval_programs(ctx, st2, progs, [None, "min"], check_tree=True, check_format=True)
+    run_witnesses(ctx, ["K2", "K3"], [None, "min"])
+
+
+register(
+    "C07",
+    run=run_c07,
+    modules=["Tumfl.Props.C11"],
+    obligations=["Tumfl.Props.C11_roundtrip"],
+    classify=classify_k,
+    rule="numerals enumerated from the Lua numeral grammar (exhaustive up to a length over digit alphabets), boundary values, random long "
+         "digit strings, each in several syntactic contexts and both styles; oracle: kind and exact rational value computed by the Lean Spec "
+         "from source and from output; distinct = distinct program texts",
+    partial_hypotheses=["no theorem about the model numeral scanner/printer yet"],
+)
+
+
+# =========================================================================== C16 positions, C20 comments
+def relaid_programs(ctx: fw.Ctx, stream: str, n: int, comments: float) -> list[str]:
+    r = ctx.rng(stream)
+    out = []
+    for _ in range(n):
+        c = gen.Cfg(max_depth=r.choice([1, 2, 3]), max_stats=r.choice([2, 3, 4]), comments=comments)
+        out.append(gen.program(r, c))
+    return out
+
+
+def mutate_text(r: random.Random, src: str) -> str:
+    """character-level damage: delete, duplicate or replace a character, or cut the text"""
+    if not src:
+        return src
+    i = r.randrange(len(src))
+    x = r.random()
+    if x < 0.3:
+        return src[:i] + src[i + 1:]
+    if x < 0.5:
+        return src[:i] + src[i] + src[i:]
+    if x < 0.8:
+        return src[:i] + r.choice("()[]{}=,;.:'\"-\\\n x1e+") + src[i + 1:]
+    return src[:i]
+
+
+def check_error_tokens(st: fw.Stream, items: list[tuple[str, ParserError, dict]]) -> None:
+    """the token attached to a ParserError must be a real token of the text (C16, C09)"""
+    answers = drive([("reflex", hx(src)) for src, _, _ in items])
+    for (src, e, case), ans in zip(items, answers):
+        t = e.token
+        mine = []
+        with quiet():
+            try:
+                lx = Lexer(src)
+                while True:
+                    x = lx.get_next_token()
+                    mine.append((x.type, x.line, x.column))
+                    if x.type == TokenType.EOF:
+                        break
+            except Exception:  # noqa: BLE001  (a lexical error further on: compare with what was lexed)
+                pass
+        if (t.type, t.line, t.column) not in mine:
+            st.fail("ParserError carries a token that is not a token of the text", dict(case, token=(str(t.type), t.line, t.column)))
+            continue
+        if ans.startswith("ok") and t.type != TokenType.EOF:
+            ref = {(l, c) for _, _, l, c, _ in parse_reflex(ans)}
+            if (t.line, t.column) not in ref:
+                st.fail("ParserError position is not the start of a token", dict(case, token=(str(t.type), t.line, t.column)))
+
+
+def run_c16(ctx: fw.Ctx) -> None:
+    st = ctx.stream("generated programs with random blanks, tabs, comments, multi-line literals, shebang")
+    progs = relaid_programs(ctx, "c16", ctx.n(600, 10000), 0.25)
+    eval_lex(st, progs, values=False, comments=False)
+    st2 = ctx.stream("corpus files")
+    eval_lex(st2, [s for _, s in corpus_files() if "\r" not in s and (not ctx.quick or len(s) < 60000)], values=False, comments=False)
+    st3 = ctx.stream("position of the ParserError token on damaged programs")
+    r = ctx.rng("c16m")
+    items = []
+    for p in progs[: ctx.n(400, 5000)]:
+        m = mutate_text(r, p)
+        status, e = tparse(m)
+        case = {"kind": "program", "source": m}
+        st3.record(case, key=m, nontrivial=(status == "parser"))
+        if status == "parser":
+            items.append((m, e, case))
+    check_error_tokens(st3, items)
+    st3.notes["parser_errors"] = len(items)
+
+
+def run_c20(ctx: fw.Ctx) -> None:
+    st = ctx.stream("generated programs with comments of every shape in the gaps")
+    progs = relaid_programs(ctx, "c20", ctx.n(500, 10000), 0.6)
+    eval_lex(st, progs, positions=False)
+    st2 = ctx.stream("every comment shape in every gap of fixed statements")
+    shapes = ["--\n", "-- c\n", "--c", "--[[ c ]]", "--[==[ c ]==]", "--[[\n multi\n]]", "--[ not long\n", "--[= not long\n", "--[==x\n",
+              "-- 'q\n", "-- \"q\n", "-- [[ x ]]\n", "--[[ ]=] ]]", "--[=[ ]] ]=]", "--- dash\n", "--[[--]]", "--]] x\n", "-- é中\n"]
+    stmts = [["x", "=", "1"], ["local", "a", "<", "const", ">", "=", "f", "(", "'s'", ",", "...", ")"], ["return", "a", "..", "b"],
+             ["t", ".", "k", "[", "1", "]", ":", "m", "{", "}"], ["for", "i", "=", "1", ",", "2", "do", "end"], ["::", "l", "::"]]
+    cases = []
+    for toks in stmts:
+        for gap in range(len(toks) + 1):
+            for sh in shapes:
+                parts = list(toks)
+                parts.insert(gap, sh)
+                cases.append(" ".join(parts))
+                if gap < len(toks):
+                    parts2 = list(toks)
+                    parts2.insert(gap, sh + " " + shapes[(gap + 3) % len(shapes)])
+                    cases.append(" ".join(parts2))
+    eval_lex(st2, cases, positions=False)
+    st2.exhaustive = True
+    st3 = ctx.stream("corpus files without known-finding numerals")
+    files = [s for _, s in corpus_files() if "\r" not in s and (not ctx.quick or len(s) < 60000)]
+    feats = drive([("features", hx(s)) for s in files])
+    eval_lex(st3, [s for s, ft in zip(files, feats) if "k2=false k3=false bytes=false" in ft], positions=False)
+
+
+for pid, runner, rule in [
+    ("C16", run_c16, "token streams of generated programs (random layout, comments, multi-line strings/comments, shebang) and corpus files; oracle: "
+                     "(line, column) of every token from the Lean Spec lexer; for damaged programs the ParserError token must be a token of the text at a token start"),
+    ("C20", run_c20, "token streams with comments of 18 shapes in every gap; oracle: comments the Lean Spec lexer attaches to each token (text compared up to "
+                     "surrounding blanks), token kinds/values, end-of-file token included"),
+]:
+    register(pid, run=runner, modules=["Tumfl.Props.C11"], obligations=["Tumfl.Props.C11_roundtrip"], rule=rule + "; distinct = distinct source texts",
+             partial_hypotheses=["no theorem about the model lexer yet"])
+
+
+# =========================================================================== C13 statement-leading comments
+COMMENT_TEXTS = ["c", "x = 1", "[[", "]]", "[=[ k ]=]", "--", "- -", "'q", "\"q", "end", "]==]", "é中", "a\tb", "[", "[=", "=[",
+                 "[[ ]]", "TODO: (x)", "#!/bin/sh", "\\n", "--[[", "]] --", "{ }"]
+MULTI_TEXTS = ["l1\nl2", "a\n\nb", "[[\nx", "]=]\ny", "x\n]]", "--\n--", "a\n  indented\n\tb"]
+
+
+def comment_spellings(r: random.Random, text: str) -> str | None:
+    """a source spelling of a comment with the given text (None if none exists)"""
+    opts = []
+    if "\n" not in text:
+        head = "--" if not (text.startswith("[") and text[1:].lstrip("=").startswith("[")) else "-- "
+        opts.append(head + r.choice(["", " ", "  "]) + text + r.choice(["", " "]) + "\n")
+    for lvl in range(0, 4):
+        close = "]" + "=" * lvl + "]"
+        if (text + close).find(close) == len(text):
+            opts.append("--[" + "=" * lvl + "[" + r.choice(["", " ", "\n"]) + text + r.choice(["", " "]) + close + r.choice([" ", "\n"]))
+    return r.choice(opts) if opts else None
+
+
+def marker_statements(k: int) -> list[tuple[str, str]]:
+    """statement forms whose first name token is the unique marker m<k>"""
+    m = f"m{k}"
+    return [(m, f"{m} = 1"), (m, f"{m}()"), (m, f"{m}:go(1)"), (m, f"{m}.f.g = 2"), (m, f"local {m}"), (m, f"local {m} <const> = 1"),
+            (m, f"while {m} do end"), (m, f"repeat until {m}"), (m, f"if {m} then elseif y then else end"), (m, f"for {m} = 1, 2 do end"),
+            (m, f"for {m}, v in p do end"), (m, f"function {m}.a:b() end"), (m, f"local function {m}() end"), (m, f"goto {m}"),
+            (m, f"::{m}::"), (m, f"do {m}() end"), (m, f"{m}'s'"), (m, f"{m}{{}}"), (m, f"({m})()"), (m, f"({m}).x = 1")]
+
+
+def c13_case(r: random.Random, nstat: int, nest: int):
+    """returns (source, expected [(comment text, marker)])"""
+    expected = []
+    counter = itertools.count(1)
+
+    def stmts(n: int, depth: int) -> str:
+        out = []
+        for _ in range(n):
+            k = next(counter)
+            forms = marker_statements(k)
+            m, s = r.choice(forms)
+            will_wrap = depth > 0 and r.random() < 0.4
+            if (out or will_wrap) and s.startswith("("):
+                s = f"{m}()"
+            if will_wrap:
+                inner = stmts(r.randint(1, 2), depth - 1)
+                k2 = next(counter)
+                wrap = r.choice([f"do {inner} end", f"while w{k2} do {inner} end", f"if w{k2} then {inner} end",
+                                 f"function w{k2}() {inner} end", f"repeat {inner} until w{k2}", f"for w{k2} = 1, 2 do {inner} end"])
+                out.append(wrap)
+            ncom = r.choice([0, 1, 1, 2, 3])
+            pre = ""
+            for _ in range(ncom):
+                text = r.choice(COMMENT_TEXTS + MULTI_TEXTS)
+                sp = comment_spellings(r, text)
+                if sp is None:
+                    continue
+                pre += sp
+                expected.append((text.strip(LUA_WS), m))
+            out.append(pre + s)
+        return "\n".join(out)
+
+    return stmts(nstat, nest), expected
+
+
+def out_comments(ans: str):
+    """comments of a formatted text with the first name token at or after the token they are attached to"""
+    toks = parse_reflex(ans)
+    res = []
+    for i, (kind, val, line, col, cms) in enumerate(toks):
+        if not cms:
+            continue
+        nxt = next((v for k, v, *_ in toks[i:i + 4] if k == "name"), None)
+        for c in cms:
+            res.append((c.strip(LUA_WS), nxt))
+    return res
+
+
+def run_c13(ctx: fw.Ctx) -> None:
+    r = ctx.rng("c13")
+    st = ctx.stream("statement forms x 0..3 leading comments x comment shapes x nesting, default style")
+    st_off = ctx.stream("same programs with INCLUDE_COMMENTS = False")
+    cases = []
+    for _ in range(ctx.n(700, 12000)):
+        src, exp = c13_case(r, r.randint(1, 4), r.choice([0, 1, 2, 3]))
+        cases.append((src, exp))
+    # every statement form x every comment text, once
+    k = 0
+    for text in COMMENT_TEXTS + MULTI_TEXTS:
+        for m, s in marker_statements(7):
+            k += 1
+            if ctx.quick and k % 3:
+                continue
+            sp = comment_spellings(r, text)
+            cases.append((f"z0 = 0\n{sp}{s}" if not s.startswith("(") else f"z0 = 0;\n{sp}{s}", [(text.strip(LUA_WS), m)]))
+    refs = refparse([c[0] for c in cases])
+    outs, outs_off = [], []
+    NoComments = mkstyle(dict(INCLUDE_COMMENTS=False))
+    for (src, exp), ref in zip(cases, refs):
+        if not ref.startswith("ok"):
+            raise fw.InfraError(f"C13 generator produced an invalid program: {src!r} {ref}")
+        case = {"kind": "comments", "source": src, "expected": exp}
+        st.record(case, key=src, nontrivial=bool(exp))
+        status, ast = tparse(src)
+        if status != "ok":
+            st.fail(f"valid chunk not parsed: {status} {ast}", case)
+            continue
+        fs, out = tformat(ast, None)
+        if fs != "ok":
+            st.fail(f"format failed: {fs} {out!r}", case)
+            continue
+        outs.append((case, out))
+        fs2, out2 = tformat(ast, NoComments)
+        st_off.record(case, key=src, nontrivial=bool(exp))
+        if fs2 == "ok":
+            outs_off.append((case, out2))
+        else:
+            st_off.fail(f"format failed: {fs2} {out2!r}", case)
+    answers = drive([("reflex", hx(o)) for _, o in outs])
+    for (case, out), ans in zip(outs, answers):
+        if not ans.startswith("ok"):
+            st.fail("output does not lex", dict(case, output=out, spec=ans))
+            continue
+        got = out_comments(ans)
+        if got and got[0][0] == "tumfl":
+            got = got[1:]
+        exp = [tuple(e) for e in case["expected"]]
+        if [g[0] for g in got] != [e[0] for e in exp]:
+            st.fail("leading comments do not appear exactly once, in order, with the same text", dict(case, output=out, got=got))
+        elif got != exp:
+            st.fail("a comment is not placed before its statement", dict(case, output=out, got=got))
+    answers = drive([("reflex", hx(o)) for _, o in outs_off])
+    for (case, out), ans in zip(outs_off, answers):
+        if not ans.startswith("ok"):
+            st_off.fail("output does not lex", dict(case, output=out, spec=ans))
+            continue
+        got = [g for g in out_comments(ans) if g[0] != "tumfl"]
+        if got:
+            st_off.fail("a source comment appears although comments are switched off", dict(case, output=out, got=got))
+
+
+register(
+    "C13",
+    run=run_c13,
+    modules=["Tumfl.Props.C11"],
+    obligations=["Tumfl.Props.C11_roundtrip"],
+    rule="programs whose statements carry unique marker names, with 0..3 leading comments per statement (23 single-line and 7 multi-line texts, "
+         "short and long spellings of level 0..3) at nesting depth 0..3; oracle: comments of the formatted text as read by the Lean Spec lexer - same "
+         "texts, same order, each once, each attached in front of its statement's marker; with INCLUDE_COMMENTS off: none; non-trivial = has >= 1 comment",
+    partial_hypotheses=["no theorem yet"],
+)
+
+
+# =========================================================================== malformed inputs (C09 C10 C19)
+ALL_TOKEN_TEXTS = sorted(gen.KEYWORDS) + ["+", "-", "*", "/", "%", "^", "#", "==", "~=", "<=", ">=", "<", ">", "=", "(", ")", "{", "}",
+                                           "[", "]", ";", ":", "::", ",", ".", "..", "...", "&", "|", "~", "<<", ">>", "//",
+                                           "nm", "12", "0x1f", "1.5e3", "'str'", "[[long]]"]
+
+
+def seed_token_lists(ctx: fw.Ctx, stream: str, n: int) -> list[list[str]]:
+    r = ctx.rng(stream)
+    out = []
+    for _ in range(n):
+        g = gen.ProgGen(r, gen.Cfg(max_depth=r.choice([1, 2, 3]), max_stats=3, unicode=False))
+        out.append([t.text for t in g.chunk()])
+    out += [src.replace("(", " ( ").replace(")", " ) ").replace(",", " , ").split() for src in STAT_FORMS if "'" not in src and "[[" not in src]
+    return out
+
+
+def token_mutations(toks: list[str], r: random.Random, budget: int | None) -> list[str]:
+    """single-token deletions, duplications, swaps and replacements by every other token kind"""
+    muts = []
+    n = len(toks)
+    for i in range(n):
+        muts.append(toks[:i] + toks[i + 1:])
+        muts.append(toks[:i] + [toks[i]] + toks[i:])
+        if i + 1 < n:
+            muts.append(toks[:i] + [toks[i + 1], toks[i]] + toks[i + 2:])
+        for rep in ALL_TOKEN_TEXTS:
+            if rep != toks[i]:
+                muts.append(toks[:i] + [rep] + toks[i + 1:])
+                if budget is None:
+                    muts.append(toks[:i] + [rep] + toks[i:])
+    if budget is not None and len(muts) > budget:
+        muts = r.sample(muts, budget)
+    return [" ".join(m) for m in muts]
+
+
+def char_soup(r: random.Random, n: int) -> list[str]:
+    alpha = list("abxe_01.9 \n\t()[]{}=<>~+-*/%^#&|,;:'\"\\") + ["--", "[[", "]]", "[=[", "..", "...", "::", "and ", "end ", "function ", "local ",
+                                                                   "return ", "if ", "then ", "do ", "0x", "1e", "\\u{", "\\x", "\\z", " ", "é", "\x00"]
+    return ["".join(r.choice(alpha) for _ in range(r.randint(1, 40))) for _ in range(n)]
+
+
+def malformed_inputs(ctx: fw.Ctx, name: str, n_seeds_q: int, n_seeds_t: int, per_seed_q: int | None) -> list[str]:
+    r = ctx.rng(name)
+    seeds = seed_token_lists(ctx, name + "-seeds", ctx.n(n_seeds_q, n_seeds_t))
+    out = []
+    for toks in seeds:
+        out += token_mutations(toks, r, per_seed_q if ctx.quick else 4 * (per_seed_q or 100))
+    return out
+
+
+def prefixes_of(srcs: list[str]) -> list[str]:
+    out = []
+    for s in srcs:
+        out += [s[:i] for i in range(len(s) + 1)]
+    return out
+
+
+def check_position(st: fw.Stream, src: str, status: str, e, case: dict) -> None:
+    lines = src.split("\n")
+    if status == "lexer":
+        # LexerError carries 0-based line and column
+        ok = isinstance(e.line, int) and isinstance(e.column, int) and 0 <= e.line < len(lines) and -1 <= e.column <= len(lines[e.line])
+        if not ok:
+            st.fail("LexerError position lies outside the text", dict(case, line=e.line, column=e.column))
+    elif status == "parser":
+        t = e.token
+        ok = 1 <= t.line <= len(lines) and 0 <= t.column <= len(lines[t.line - 1]) + 1
+        if not ok:
+            st.fail("ParserError position lies outside the text", dict(case, line=t.line, column=t.column))
+
+
+def eval_total(st: fw.Stream, srcs: list[str]) -> list[tuple[str, str, Any]]:
+    """C09 oracle: AST, LexerError or ParserError - nothing else, terminating, position inside the text"""
+    res = []
+    items = []
+    for src in srcs:
+        status, x = tparse(src)
+        case = {"kind": "text", "source": src}
+        st.record(case, key=src, nontrivial=status in ("lexer", "parser"))
+        st.notes[status] = st.notes.get(status, 0) + 1
+        if status in ("other", "timeout", "recursion"):
+            st.fail(f"parse raised {type(x).__name__}: {x}" if status == "other" else f"parse did not finish normally: {status}", case)
+        else:
+            check_position(st, src, status, x, case)
+            if status == "parser":
+                items.append((src, x, case))
+        res.append((src, status, x))
+    check_error_tokens(st, items)
+    return res
+
+
+def run_c09(ctx: fw.Ctx) -> None:
+    r = ctx.rng("c09")
+    seeds = random_programs(ctx, "c09seeds", ctx.n(40, 300), depth_choices=(1, 2, 3))
+    st = ctx.stream("every prefix (cut point) of seed programs")
+    eval_total(st, prefixes_of(seeds[: ctx.n(25, 300)] + STAT_FORMS))
+    st.exhaustive = True
+    st2 = ctx.stream("single-token deletion / duplication / swap / replacement by every token kind")
+    eval_total(st2, malformed_inputs(ctx, "c09mut", 10, 150, 250))
+    st3 = ctx.stream("random strings over the Lua alphabet")
+    eval_total(st3, char_soup(r, ctx.n(3000, 60000)))
+    st4 = ctx.stream("escape sequences and numerals cut at every point")
+    lits = ['"\\x41"', '"\\u{1F600}"', '"\\065"', '"\\z  a"', "'\\\n'", "[==[x]==]", "--[==[x]==]", "0x1.8p-3", "1.5e+10", "a.b:c'x'", "a, b = 1",
+            "local x <const> = 1", "t[1].y = f{...}", "::l:: goto l", "function a.b:c(...) end", "x = 'é中😀'"]
+    eval_total(st4, [p + tail for l in lits for p in [l[:i] for i in range(len(l) + 1)] for tail in ("", " ", "\n", " y", "\n=1")])
+    st4.exhaustive = True
+
+
+def run_c10(ctx: fw.Ctx) -> None:
+    st = ctx.stream("single-token mutations classified by the reference grammar")
+    srcs = malformed_inputs(ctx, "c10mut", 15, 200, 300)
+    srcs += ["x = 1 end y = 2", "return 1 launch()", "x = 1 until y", "x = 1 else y = 2", "x = 1 elseif y then", "return return", "return 1 2",
+             "x = {1 2}", "x = {a = 1 b = 2}", "x = {1,,2}", "x = {,}", "f() = 1", "(a) = 1", "(f())", "a.b", "a:b", "a, 1 = 2", "x = 0x", "x = 1e",
+             "x = 3f()", "x = 1..2", "x = 0x1p", "x = 1e+", "x = 1", "x = 1", "x = 1\x1c", "x =\x85 1", "x = 08", "x = 0xg", "x = 1 = 2",
+             "local function f() end end", "do end end", "if x then end end", "for i = 1 do end", "for i = 1, 2, 3, 4 do end", "local x <const const> = 1",
+             "goto", "::a", "break break", "x = a b", "x = (1)(2)(3)", "f{}{}''", "x = function() end()", "return;;", "x = - - 1", "x = not", "x = # #t",
+             "x = a.1", "x = a..b", "x = a...b", "x = a....b", "x = ...b", "x = 1 .. 2", "x = 1. .. 2"]
+    if not ctx.quick:
+        st_d = ctx.stream("double mutations")
+        r = ctx.rng("c10d")
+        dbl = []
+        for s in r.sample(srcs, 3000):
+            toks = s.split()
+            dbl += token_mutations(toks, r, 8)
+        eval_accept(st_d, dbl)
+    eval_accept(st, srcs)
+
+
+def eval_accept(st: fw.Stream, srcs: list[str]) -> None:
+    refs = refparse(srcs)
+    for src, ref in zip(srcs, refs):
+        status, ast = tparse(src)
+        valid = ref.startswith("ok")
+        case = {"kind": "text", "source": src, "reference": ref[:200]}
+        st.record(case, key=src, nontrivial=not valid)
+        st.notes["valid" if valid else "invalid"] = st.notes.get("valid" if valid else "invalid", 0) + 1
+        if status == "ok" and not valid:
+            st.fail("parse succeeded on text that is not a valid Lua chunk", case)
+        elif status == "ok" and valid:
+            try:
+                mine = "ok " + absast.abs_chunk(ast)
+            except absast.AbsError as e:
+                st.fail(f"AST has an unexpected shape: {e}", case)
+                continue
+            feats = None
+            if mine != ref:
+                feats = drive([("features", hx(src))])[0]
+                if "k1=true" in feats or "k2=true" in feats:
+                    continue   # known findings of C03, not of C10
+                st.fail("parse succeeded with a different tree than the grammar assigns", dict(case, got=mine[:1500]))
+
+
+def run_c19(ctx: fw.Ctx) -> None:
+    from tumfl.parser import Parser
+    st = ctx.stream("accepted programs: context chain empty after parse_chunk")
+    progs = random_programs(ctx, "c19ok", ctx.n(300, 5000)) + list(statement_pair_programs())[:: ctx.n(4, 1)] + \
+        [s for _, s in corpus_files() if len(s) < ctx.n(40000, 10**9)]
+    for src in progs:
+        case = {"kind": "program", "source": src}
+        with quiet():
+            try:
+                p = Parser(src)
+                p.parse_chunk()
+            except TumflError:
+                st.record(case, key=src, nontrivial=False)
+                continue
+            except Exception as e:  # noqa: BLE001
+                st.record(case, key=src)
+                st.fail(f"parse raised {type(e).__name__}", case)
+                continue
+        st.record(case, key=src)
+        if p.context_hints:
+            st.fail("context chain not empty after a successful parse", dict(case, hints=[str(h) for h in p.context_hints]))
+    st2 = ctx.stream("rejected programs: hints in source order, none after the offending token")
+    srcs = malformed_inputs(ctx, "c19mut", 12, 200, 300) + prefixes_of(random_programs(ctx, "c19pre", ctx.n(15, 200), depth_choices=(1, 2, 3)))
+    sites = set()
+    for src in srcs:
+        status, e = tparse(src)
+        case = {"kind": "text", "source": src}
+        st2.record(case, key=src, nontrivial=(status == "parser" and bool(e.hints)))
+        if status != "parser":
+            continue
+        pos = [(h.token.line, h.token.column) for h in e.hints]
+        for h in e.hints:
+            sites.add((h.where, h.what))
+        if pos != sorted(pos):
+            st2.fail("hint positions are not in source order", dict(case, hints=[str(h) for h in e.hints]))
+        elif pos and pos[-1] > (e.token.line, e.token.column):
+            st2.fail("a hint lies after the offending token", dict(case, hints=[str(h) for h in e.hints], token=(e.token.line, e.token.column)))
+    st2.notes["distinct_hint_kinds_seen"] = len(sites)
+
+
+for pid, runner, rule in [
+    ("C09", run_c09, "every prefix of seed programs, single-token mutations (delete, duplicate, swap, replace by each of 60 token kinds), random "
+                     "character soup, literals cut at every point; oracle: result is an AST, LexerError or ParserError, terminates (10 s watchdog), "
+                     "position inside the text and ParserError token is a real token; non-trivial = the text was rejected"),
+    ("C10", run_c10, "single (thorough: double) token mutations of generated programs plus a list of hand-written invalid texts; oracle: "
+                     "whenever tumfl.parse succeeds the Lean Spec must accept the text with the same normalised tree; non-trivial = invalid by the reference"),
+    ("C19", run_c19, "accepted programs (context_hints must be empty after parse_chunk) and rejected ones (hint positions sorted, none after the "
+                     "offending token); non-trivial = rejected with a non-empty hint chain / accepted"),
+]:
+    register(pid, run=runner, modules=["Tumfl.Props.C11"], obligations=["Tumfl.Props.C11_roundtrip"], rule=rule + "; distinct = distinct texts",
+             partial_hypotheses=["no theorem about the model parser yet"])
+
+
+# =========================================================================== C17 tree shape, C18 equality
+from tumfl.AST.ASTNode import ASTNode
+from tumfl.AST.Statement.LocalAssign import AttributedName
+from tumfl.basic_walker import NoneWalker
+
+NON_STRUCTURAL = {"token", "parent_class", "file_name", "comment", "name", "attributes"}
+
+
+def children_of(node: ASTNode) -> list[tuple[str, ASTNode]]:
+    """(slot description, child) for every child node, found by reflection - independent of ASTNode.__dir"""
+    out = []
+    for k, v in vars(node).items():
+        if k in ("token", "parent_class", "file_name", "comment", "attributes"):
+            continue
+        if isinstance(v, ASTNode):
+            out.append((k, v))
+        elif isinstance(v, list):
+            for i, x in enumerate(v):
+                if isinstance(x, ASTNode):
+                    out.append((f"{k}[{i}]", x))
+                elif isinstance(x, AttributedName):
+                    out.append((f"{k}[{i}].name", x.name))
+                    if x.attribute is not None:
+                        out.append((f"{k}[{i}].attribute", x.attribute))
+    return out
+
+
+def all_nodes(root: ASTNode) -> list[tuple[ASTNode | None, str, ASTNode]]:
+    out = []
+    stack = [(None, "root", root)]
+    while stack:
+        p, slot, n = stack.pop()
+        out.append((p, slot, n))
+        for s, c in reversed(children_of(n)):
+            stack.append((n, s, c))
+    return out
+
+
+class CountingWalker(NoneWalker):
+    def __init__(self):
+        self.seen: dict[int, int] = {}
+
+    def visit(self, node):
+        self.seen[id(node)] = self.seen.get(id(node), 0) + 1
+        return super().visit(node)
+
+
+def check_tree(st: fw.Stream, root: ASTNode, case: dict, expect_root_parent=None) -> bool:
+    nodes = all_nodes(root)
+    ids = [id(n) for _, _, n in nodes]
+    if len(set(ids)) != len(ids):
+        st.fail("a node is reachable from more than one parent slot", case)
+        return False
+    for p, slot, n in nodes:
+        if p is None:
+            if n.parent_class is not expect_root_parent:
+                st.fail("root has a parent link", case)
+                return False
+        elif n.parent_class is not p:
+            st.fail("parent link does not designate the parent", dict(case, slot=f"{type(p).__name__}.{slot}", child=type(n).__name__,
+                                                                        link=type(n.parent_class).__name__))
+            return False
+    w = CountingWalker()
+    with quiet():
+        w.visit(root)
+    for p, slot, n in nodes:
+        c = w.seen.get(id(n), 0)
+        if c != 1:
+            st.fail(f"generic walker visits a node {c} times", dict(case, slot=f"{type(p).__name__ if p else None}.{slot}", node=type(n).__name__))
+            return False
+    return True
+
+
+def check_replace(st: fw.Stream, root: ASTNode, r: random.Random, case: dict) -> None:
+    nodes = all_nodes(root)
+    parents = [n for _, _, n in nodes if children_of(n)]
+    for _ in range(min(4, len(parents))):
+        p = r.choice(parents)
+        kids = children_of(p)
+        slot, victim = r.choice(kids)
+        if ".name" in slot or ".attribute" in slot:
+            continue   # names inside a local declaration are not direct slots
+        new = A.Name(T(), "replacement")
+        before = [(s, id(c)) for s, c in kids]
+        p.replace_child(victim, new)
+        after = [(s, id(c)) for s, c in children_of(p)]
+        want = [(s, id(new) if i == id(victim) else i) for s, i in before]
+        if after != want:
+            st.fail("replace_child did not substitute exactly the given occurrence", dict(case, parent=type(p).__name__, slot=slot))
+            return
+        p.replace_child(new, victim)   # put it back
+
+
+def run_c17(ctx: fw.Ctx) -> None:
+    r = ctx.rng("c17")
+    st = ctx.stream("parsed programs: unique parent, parent links, walker visits each node once, replace_child")
+    progs = random_programs(ctx, "c17", ctx.n(400, 6000)) + list(statement_pair_programs())[:: ctx.n(3, 1)]
+    kinds = set()
+    for src in progs:
+        status, ast = tparse(src)
+        case = {"kind": "program", "source": src}
+        st.record(case, key=src)
+        if status != "ok":
+            st.fail(f"valid chunk not parsed: {status}", case)
+            continue
+        for p, slot, n in all_nodes(ast):
+            kinds.add((type(p).__name__ if p else None, slot.split("[")[0], type(n).__name__))
+        if check_tree(st, ast, case):
+            check_replace(st, ast, r, case)
+    st.notes["distinct_parent_slot_child_kinds"] = len(kinds)
+    st2 = ctx.stream("after dependency resolution (statement- and expression-level inlining)")
+    for i in range(ctx.n(60, 800)):
+        tree = make_file_tree(r, faults=False)
+        res = resolve_tree(tree)
+        case = {"kind": "filetree", "files": tree["files"], "main": tree["main"], "search": tree["search"]}
+        st2.record(case, key=json.dumps(case, sort_keys=True))
+        if res[0] != "ok":
+            st2.fail(f"resolution failed: {res[0]} {res[1]}", case)
+            continue
+        check_tree(st2, res[1], case)
+
+
+def struct_dump(n) -> Any:
+    """structure of a tumfl AST without tokens, comments, parents - the reference for =="""
+    if isinstance(n, ASTNode):
+        d = {"__class__": type(n).__name__}
+        for k, v in vars(n).items():
+            if k in ("token", "parent_class", "file_name", "comment", "attributes"):
+                continue
+            d[k] = struct_dump(v)
+        return d
+    if isinstance(n, AttributedName):
+        return {"__class__": "AttributedName", "name": struct_dump(n.name), "attribute": struct_dump(n.attribute)}
+    if isinstance(n, list):
+        return [struct_dump(x) for x in n]
+    if isinstance(n, (str, bool, int, type(None))):
+        return n
+    if hasattr(n, "name") and hasattr(n, "value"):   # enum
+        return f"{type(n).__name__}.{n.name}"
+    return repr(n)
+
+
+def relayout(r: random.Random, toks: list[gen.Tok]) -> str:
+    return gen.render(toks, r, gen.Cfg(comments=0.3))
+
+
+def structural_mutations(r: random.Random, toks: list[gen.Tok]) -> list[list[gen.Tok]]:
+    """token replacements that keep the kind of token (name->name, op->op, literal->literal)"""
+    out = []
+    idx = list(range(len(toks)))
+    r.shuffle(idx)
+    for i in idx[:12]:
+        t = toks[i]
+        new = None
+        if t.kind == "name":
+            new = gen.Tok(t.text + "_", "name")
+        elif t.kind == "num":
+            new = gen.Tok("7" + t.text if not t.text.startswith(".") else "7" + t.text, "num")
+        elif t.kind == "str":
+            new = gen.Tok("'mutated" + str(i) + "'", "str")
+        elif t.text in gen.BINOPS and t.text not in ("-", "~", "<", ">"):
+            new = gen.Tok(r.choice([o for o in ["+", "*", "/", "%", "..", "==", "and", "or", "^", "//", "&", "|", "<<", ">>", "<=", ">=", "~="] if o != t.text]), "sym")
+        elif t.text in ("true", "false", "nil"):
+            new = gen.Tok({"true": "false", "false": "nil", "nil": "true"}[t.text], "kw")
+        if new is not None:
+            out.append(toks[:i] + [new] + toks[i + 1:])
+    return out
+
+
+def run_c18(ctx: fw.Ctx) -> None:
+    r = ctx.rng("c18")
+    st_eq = ctx.stream("(program, re-laid-out copy): must be equal")
+    st_ne = ctx.stream("(program, single-point mutation): equal iff structurally identical")
+    for _ in range(ctx.n(300, 5000)):
+        g = gen.ProgGen(r, gen.Cfg(max_depth=r.choice([1, 2, 3]), max_stats=3))
+        toks = g.chunk()
+        a_src, b_src = gen.render(toks, r, plain=True), relayout(r, toks)
+        sa, a = tparse(a_src)
+        sb, b = tparse(b_src)
+        case = {"kind": "pair", "a": a_src, "b": b_src}
+        st_eq.record(case, key=a_src + "\0" + b_src)
+        if sa != "ok" or sb != "ok":
+            st_eq.fail(f"valid chunk not parsed: {sa} {sb}", case)
+            continue
+        da, db = struct_dump(a), struct_dump(b)
+        if da != db:
+            raise fw.InfraError(f"re-laid-out copy has a different structure: {a_src!r} vs {b_src!r}")
+        if not (a == b) or not (b == a):
+            st_eq.fail("ASTs of the same program in a different layout compare unequal", case)
+        for mt in structural_mutations(r, toks):
+            m_src = gen.render(mt, r, plain=True)
+            sm, m = tparse(m_src)
+            if sm != "ok":
+                continue
+            same = struct_dump(m) == da
+            mcase = {"kind": "pair", "a": a_src, "b": m_src, "structurally_equal": same}
+            st_ne.record(mcase, key=a_src + "\0" + m_src, nontrivial=not same)
+            if (a == m) != same or (m == a) != same:
+                st_ne.fail("== disagrees with structural identity", mcase)
+    # optional parts, arity, operators, literal digits
+    pairs = [("local x", "local x = nil"), ("local x <const> = 1", "local x = 1"), ("local x <const> = 1", "local x <close> = 1"),
+             ("f()", "f(nil)"), ("f(1)", "f(1, 1)"), ("return", "return nil"), ("return", ""), ("x = 1", "x = 1.0"), ("x = 1", "x = 01"),
+             ("x = 0x10", "x = 16"), ("x = 'a'", "x = \"a\""), ("x = 'a'", "x = [[a]]"), ("x = a.b", "x = a['b']"), ("a.b()", "a:b()"),
+             ("for i = 1, 2 do end", "for i = 1, 2, 1 do end"), ("if a then end", "if a then else end"), ("function f() end", "function f(...) end"),
+             ("function a.b() end", "function a:b() end"), ("x = -1", "x = - 1"), ("x = a - b", "x = a + b"), ("x = not a", "x = #a"),
+             ("x = {1}", "x = {[1] = 1}"), ("x = {a = 1}", "x = {['a'] = 1}"), ("do end", ";"), ("x = 1", "x = 1;"), ("x = (a)", "x = a"),
+             ("while a do end", "repeat until a"), ("goto a", "::a::"), ("x = true", "x = false"), ("x = 1e2", "x = 1E2"), ("x = 0xA", "x = 0xa")]
+    st_p = ctx.stream("hand-written pairs: optional parts, arity, operators, literal spellings")
+    for a_src, b_src in pairs:
+        (sa, a), (sb, b) = tparse(a_src), tparse(b_src)
+        same = struct_dump(a) == struct_dump(b)
+        case = {"kind": "pair", "a": a_src, "b": b_src, "structurally_equal": same}
+        st_p.record(case, key=a_src + "\0" + b_src)
+        if (a == b) != same:
+            st_p.fail("== disagrees with structural identity", case)
+    st_p.exhaustive = True
+
+
+for pid, runner, rule in [
+    ("C17", run_c17, "parsed programs and resolved file trees; children found by reflection (vars), independent of ASTNode.__dir; oracle: each node has one "
+                     "parent slot, parent_class designates it, NoneWalker visits each node exactly once, replace_child substitutes exactly one slot"),
+    ("C18", run_c18, "pairs (program, re-laid-out copy with other blanks/comments) and (program, token-level mutation keeping validity); oracle: a "
+                     "structural dump of both ASTs by reflection (no tokens, comments, parents); == must hold iff the dumps are equal; non-trivial = dumps differ"),
+]:
+    register(pid, run=runner, modules=["Tumfl.Props.C11"], obligations=["Tumfl.Props.C11_roundtrip"], rule=rule + "; distinct = distinct inputs",
+             partial_hypotheses=["no schema theorem yet"])
+
+
+# =========================================================================== file trees (C04 C12 C17)
+import shutil
+import tempfile
+from pathlib import Path, PurePosixPath
+
+from tumfl.error import InvalidDependencyError
+
+
+def sexp_parse(s: str):
+    """minimal S-expression reader for the canonical tree text"""
+    toks = s.replace("(", " ( ").replace(")", " ) ").split()
+    pos = 0
+
+    def rd():
+        nonlocal pos
+        t = toks[pos]
+        pos += 1
+        if t == "(":
+            lst = []
+            while toks[pos] != ")":
+                lst.append(rd())
+            pos += 1
+            return lst
+        return t
+
+    return rd()
+
+
+def sexp_show(x) -> str:
+    if isinstance(x, list):
+        return "(" + " ".join(sexp_show(y) for y in x) + ")"
+    return x
+
+
+REQ_POSITIONS = [
+    "{R}", "local v{k} = {E}", "x{k} = {E}", "f{k}({E}, 1)", "t{k} = {{ {E}, k = {E}, [{E}] = 2 }}", "if {E} then y{k} = 1 end",
+    "while {E} do break end", "repeat until {E}", "for i = {E}, 2 do end", "for k, v in {E} do end", "z{k} = t[{E}]", "z{k} = {E} .. 'x'",
+    "z{k} = -{E}", "{E}()", "w{k} = {E}.field", "{E}:method(1)", "function g{k}() return {E} end", "do local q = {E} end",
+    "g{k}(function() {R} end)", "do {R} end", "if c then {R} else {R2} end", "function h{k}() {R} end", "while c do {R} end",
+]
+
+
+def make_file_tree(r: random.Random, faults: bool, cycle: int = 0, k4: bool = False) -> dict:
+    """a resolvable tree (rejection sampling over make_file_tree_raw against the reference lookup)"""
+    for _ in range(200):
+        tree = make_file_tree_raw(r, faults, cycle, k4)
+        try:
+            expected_inline(tree, tree_refs(tree))
+            return tree
+        except ExpectDependencyError:
+            continue
+    raise fw.InfraError("could not generate a resolvable file tree")
+
+
+def make_file_tree_raw(r: random.Random, faults: bool, cycle: int = 0, k4: bool = False) -> dict:
+    """a small tree of Lua files with require calls; all paths are relative POSIX paths below a root"""
+    dirs = ["", "lib", "lib/sub", "sp1", "sp2", "sp1/lib"]
+    search = r.sample(["sp1", "sp2", ""], r.randint(0, 3))
+    files: dict[str, str] = {}
+    trap_dirs: list[str] = []
+    nmods = r.randint(1, 5)
+    mods = []
+    counter = itertools.count(1)
+    for i in range(nmods):
+        parts = r.choice([["m%d" % i], ["lib", "m%d" % i], ["lib", "sub", "m%d" % i]])
+        name = ".".join(parts)
+        sfx = r.choice(["", ".tl", ".lua", ".lua"])
+        # candidate homes: the main directory, or one of the search paths
+        homes = [""] + search
+        placed = r.sample(homes, r.randint(1, len(homes)))
+        for h in placed:
+            path = str(PurePosixPath(h, *parts)) + sfx
+            files[path] = i  # content filled below; remembers the module index
+        if r.random() < 0.2:
+            trap_dirs.append(str(PurePosixPath(r.choice(homes), *parts)))   # a directory with the module's bare name
+        mods.append(name)
+    expr_only = {m for m in mods if r.random() < 0.4}
+
+    def body(path: str, depth: int, index: int = -1) -> str:
+        lines = [f"marker_{next(counter)} = '{path}'"]
+        # acyclic: a module may only require modules with a larger index (statement-level cycles: see `cycle`)
+        allowed = mods[index + 1:]
+        if cycle and index >= 0:
+            allowed = [m for m in mods if m not in expr_only][: cycle]
+        if depth > 0 and allowed:
+            for _ in range(r.randint(0, 3)):
+                m = r.choice(allowed)
+                k = next(counter)
+                if m in expr_only:
+                    tmpl = r.choice([t for t in REQ_POSITIONS if "{E}" in t])
+                else:
+                    tmpl = r.choice([t for t in REQ_POSITIONS if "{R}" in t])
+                call = r.choice(['require("%s")', "require '%s'", 'require "%s"', "require[[%s]]"]) % m
+                lines.append(tmpl.replace("{E}", call).replace("{R2}", call).replace("{R}", call).replace("{k}", str(k)))
+        lines.append(f"tail_{next(counter)}()")
+        if k4 and r.random() < 0.5:
+            lines.append("return marker")
+        return "\n".join(lines) + "\n"
+
+    trap_dirs = [d for d in trap_dirs if d not in files and not any(f.startswith(d + "/") for f in files)]
+    for p in list(files):
+        files[p] = body(p, 1 if (cycle or r.random() < 0.6) else 0, files[p])
+    files["main.lua"] = body("main.lua", 2) + "".join(f"require('{m}')\n" for m in mods if m not in expr_only and r.random() < 0.6) + \
+        "".join(f"last_{i} = require('{m}')\n" for i, m in enumerate(mods) if m in expr_only and r.random() < 0.6) + \
+        "x:require('nope')\nt.require('nope')\nrequirex('nope')\nlocal r = require\n"
+    return {"files": files, "dirs": sorted(set(trap_dirs)), "main": "main.lua", "search": search}
+
+
+def tree_lookup(tree: dict, name: str, start_dir: str) -> str | None:
+    """the reference for file lookup: requiring file's directory, then the search paths, suffixes '', .tl, .lua"""
+    parts = name.split(".")
+    if not parts[0]:
+        return None
+    for d in [start_dir] + tree["search"]:
+        for sfx in ("", ".tl", ".lua"):
+            cand = str(PurePosixPath(d, *[p for p in parts if p])) if False else str(PurePosixPath(d, *parts))
+            cand = cand + sfx
+            cand = str(PurePosixPath(cand))
+            if cand in tree["files"]:
+                return cand
+    return None
+
+
+class ExpectDependencyError(Exception):
+    pass
+
+
+def expected_inline(tree: dict, refs: dict[str, Any]) -> list[str]:
+    """the specification of inlining, on Spec trees: returns the acceptable canonical texts"""
+    found: set[str] = set()
+
+    def module_of(args) -> str:
+        if len(args) != 1 or not (isinstance(args[0], list) and args[0] and args[0][0] == "str"):
+            raise ExpectDependencyError("argument shape")
+        return "".join(chr(int(u, 16)) for u in args[0][1:])
+
+    def is_require(e) -> bool:
+        return isinstance(e, list) and len(e) >= 2 and e[0] == "call" and e[1] == ["name", "require"]
+
+    def tr(x, cur_dir: str, va: str):
+        if not isinstance(x, list) or not x:
+            return x
+        if x[0] == "block":
+            out = ["block"]
+            for s in x[1:]:
+                if isinstance(s, list) and s and s[0] == "callstat" and is_require(s[1]):
+                    name = module_of(s[1][2:])
+                    path = tree_lookup(tree, name, cur_dir)
+                    if path is None:
+                        raise ExpectDependencyError("not found")
+                    if path in found:
+                        continue   # an empty statement
+                    found.add(path)
+                    inner = tr(refs[path], str(PurePosixPath(path).parent) if "/" in path else "", va)
+                    out.extend(inner[1:])
+                else:
+                    out.append(tr(s, cur_dir, va))
+            return out
+        if is_require(x):
+            name = module_of(x[2:])
+            path = tree_lookup(tree, name, cur_dir)
+            if path is None:
+                raise ExpectDependencyError("not found")
+            found.add(path)
+            inner = tr(refs[path], str(PurePosixPath(path).parent) if "/" in path else "", va)
+            return ["call", ["func", [], va, inner], x[2]]
+        return [tr(y, cur_dir, va) for y in x]
+
+    outs = []
+    for va in ("nova", "va"):
+        found.clear()
+        outs.append("ok " + sexp_show(tr(refs[tree["main"]], "", va)))
+    return outs
+
+
+def materialise(tree: dict) -> Path:
+    root = Path(tempfile.mkdtemp(prefix="tumfl-verif-tree-"))
+    for d in tree.get("dirs", []):
+        (root / d).mkdir(parents=True, exist_ok=True)
+    for p, content in tree["files"].items():
+        f = root / p
+        f.parent.mkdir(parents=True, exist_ok=True)
+        if not f.is_dir():
+            f.write_text(content, encoding="utf-8")
+    return root
+
+
+def resolve_tree(tree: dict):
+    """run the real resolver on a real directory tree: ('ok', ast) | ('dep', e) | ('timeout', None) | ('other', e)"""
+    root = materialise(tree)
+    try:
+        with quiet():
+            try:
+                ast = with_watchdog(10, tumfl.resolve_recursive, root / tree["main"], [root / s for s in tree["search"]])
+                return "ok", ast
+            except InvalidDependencyError as e:
+                return "dep", e
+            except Timeout:
+                return "timeout", None
+            except RecursionError as e:
+                return "recursion", e
+            except Exception as e:  # noqa: BLE001
+                return "other", e
+    finally:
+        shutil.rmtree(root, ignore_errors=True)
+
+
+def tree_refs(tree: dict) -> dict[str, Any] | None:
+    paths = list(tree["files"])
+    answers = drive([("refparse", hx(tree["files"][p])) for p in paths])
+    if not all(a.startswith("ok") for a in answers):
+        raise fw.InfraError(f"file tree generator produced an invalid file: {[(p, a) for p, a in zip(paths, answers) if not a.startswith('ok')][:2]}")
+    return {p: sexp_parse(a[3:]) for p, a in zip(paths, answers)}
+
+
+def has_remaining_require(sexp) -> bool:
+    if isinstance(sexp, list):
+        if len(sexp) == 3 and sexp[0] == "call" and sexp[1] == ["name", "require"] and isinstance(sexp[2], list) and sexp[2][:1] == ["str"]:
+            return True
+        return any(has_remaining_require(y) for y in sexp)
+    return False
+
+
+def eval_resolve(ctx: fw.Ctx, st: fw.Stream, trees: list[dict], styles: list) -> None:
+    todo = []
+    for tree in trees:
+        case = {"kind": "filetree", "files": tree["files"], "dirs": tree.get("dirs", []), "main": tree["main"], "search": tree["search"]}
+        st.record(case, key=json.dumps(case, sort_keys=True))
+        refs = tree_refs(tree)
+        try:
+            want = expected_inline(tree, refs)
+        except ExpectDependencyError as e:
+            raise fw.InfraError(f"fault-free tree needs a dependency error: {e}: {case}")
+        status, ast = resolve_tree(tree)
+        if status != "ok":
+            st.fail(f"resolution failed: {status}: {ast}", case)
+            continue
+        try:
+            mine = "ok " + absast.abs_chunk(ast)
+        except absast.AbsError as e:
+            st.fail(f"resolved AST has an unexpected shape: {e}", case)
+            continue
+        if mine not in want:
+            st.fail("resolved program differs from the specification of inlining", dict(case, expected=want[0][:3000], got=mine[:3000]))
+            continue
+        if has_remaining_require(sexp_parse(mine[3:])):
+            st.fail("a require(<string literal>) call remains", dict(case, got=mine[:3000]))
+            continue
+        for sd in styles:
+            sty = None if sd is None else (MinifiedStyle if sd == "min" else mkstyle(sd))
+            fs, out = tformat(ast, sty)
+            if fs != "ok":
+                st.fail(f"formatting the resolved program failed: {fs} {out!r}", dict(case, style=sd))
+                continue
+            todo.append((dict(case, style=sd), mine, out))
+    outs = refparse([t[2] for t in todo])
+    for (case, mine, out), got in zip(todo, outs):
+        if got != mine:
+            st.fail("resolved program does not format to the same valid Lua" if got.startswith("ok") else "resolved program formats to invalid Lua",
+                    dict(case, output=out[:3000], reparsed=got[:2000], expected=mine[:2000]))
+
+
+def run_c04(ctx: fw.Ctx) -> None:
+    r = ctx.rng("c04")
+    st = ctx.stream("G5 random acyclic file trees (nested dirs, shadowing, three suffixes, search-path orders) x both styles")
+    trees = [make_file_tree(r, faults=False) for _ in range(ctx.n(150, 3000))]
+    eval_resolve(ctx, st, trees, [None, "min"])
+    st2 = ctx.stream("one tree under every search-path permutation")
+    base = make_file_tree(r, faults=False)
+    perms = [list(p) for n in range(0, 4) for p in itertools.permutations(["sp1", "sp2", ""], n)]
+    eval_resolve(ctx, st2, [dict(base, search=p) for p in perms], [None])
+    st2.exhaustive = True
+    st3 = ctx.stream("random styles on resolved programs")
+    eval_resolve(ctx, st3, [make_file_tree(r, faults=False) for _ in range(ctx.n(30, 400))], [style_space(r), style_space(r)])
+    entry = next((k for k in fw.load_known().get("findings", []) if k["id"] == "K4" and k["property"] == "C04"), None)
+    if entry:
+        stw = ctx.stream("known-finding witnesses K4")
+        eval_resolve(ctx, stw, entry["trees"], [None, "min"])
+        for f in stw.failures:
+            f.case["known"] = "K4"
+        fw._KNOWN_RUNTIME[("C04", "K4")] = f"{len(stw.failures)} failing checks on {len(entry['trees'])} listed trees"
+
+
+register(
+    "C04",
+    run=run_c04,
+    modules=["Tumfl.Props.C11"],
+    obligations=["Tumfl.Props.C11_roundtrip"],
+    classify=classify_k,
+    rule="random trees of Lua files on a real temporary directory (<= 5 modules, nested directories, the same module on several search paths, "
+         "suffixes '', .tl, .lua, directories carrying a module's bare name, requires in 23 syntactic positions); oracle: specification of inlining "
+         "computed on the Lean Spec's trees of the files with an independent lookup, then format in both styles re-read by the Spec; distinct = distinct trees",
+    partial_hypotheses=["no theorem about the model resolver yet"],
+)
+
+
+# =========================================================================== C12 uninlinable requires
+FAULTS = {
+    "missing-module": 'require("does.not.exist")',
+    "missing-simple": "require 'nosuchmodule'",
+    "directory-only": 'require("onlydir")',
+    "empty-name": 'require("")',
+    "empty-first-component": 'require(".hidden")',
+    "no-arguments": "require()",
+    "two-arguments": 'require("m0", "m0")',
+    "non-literal-argument": "require(modname)",
+    "table-argument": "require{'m0'}",
+    "number-argument": "require(42)",
+    "concat-argument": 'require("m" .. "0")',
+}
+FAULT_SITES = ["{F}", "local v = {F}", "f({F})", "t = {{ {F} }}", "if {F} then end", "return {F}", "do {F} end", "function g() {F} end",
+               "x = {{ k = function() return {F} end }}", "{F}()", "y = {F}.z", "while c do local q = {F} end"]
+
+
+def inject_fault(r: random.Random, tree: dict, fault: str, site: str, where: str) -> tuple[dict, int]:
+    """insert a faulty require into file `where` (before its tail line); returns the tree and the 1-based line of the call"""
+    files = dict(tree["files"])
+    lines = files[where].split("\n")
+    stmt = site.replace("{F}", FAULTS[fault])
+    if stmt.startswith("return"):
+        pos = len(lines) - 1
+        # a return must be last: drop what follows
+        lines = lines[:pos] + [stmt]
+        line_no = pos + 1
+    else:
+        pos = 1
+        lines.insert(pos, stmt)
+        line_no = pos + 1
+    files[where] = "\n".join(lines) + ("\n" if not lines[-1] == "" else "")
+    dirs = list(tree.get("dirs", []))
+    if fault == "directory-only":
+        dirs += ["onlydir", "sp1/onlydir", "sp2/onlydir", "lib/onlydir"]
+    return dict(tree, files=files, dirs=dirs), line_no
+
+
+def first_use_order(tree: dict) -> list[str]:
+    """files in the order the resolver first reaches them (main first)"""
+    return [tree["main"]] + [p for p in tree["files"] if p != tree["main"]]
+
+
+def run_c12(ctx: fw.Ctx) -> None:
+    r = ctx.rng("c12")
+    st = ctx.stream("every fault kind x syntactic site x file of generated dependency trees")
+    n_trees = ctx.n(6, 60)
+    combos = [(f, s) for f in FAULTS for s in FAULT_SITES]
+    for ti in range(n_trees):
+        tree = make_file_tree(r, faults=False)
+        # only files that the clean resolution actually reaches can raise
+        refs = tree_refs(tree)
+        reached = [tree["main"]]
+        for p in tree["files"]:
+            pass
+        status, ast = resolve_tree(tree)
+        if status != "ok":
+            st.fail(f"clean tree does not resolve: {status} {ast}", {"kind": "filetree", **tree})
+            continue
+        text = absast.abs_chunk(ast)
+        reached = [p for p in tree["files"] if "".join(" " + format(ord(c), "x") for c in p) in text or p == tree["main"]]
+        picks = combos if not ctx.quick else r.sample(combos, 40)
+        for fault, site in picks:
+            where = r.choice(reached)
+            if site.startswith("return") and where != tree["main"] and True:
+                # a return inside a statement-level inlined file is K4 territory; keep returns in main only
+                where = tree["main"]
+            bad, line_no = inject_fault(r, tree, fault, site, where)
+            case = {"kind": "filetree", "files": bad["files"], "dirs": bad["dirs"], "main": bad["main"], "search": bad["search"],
+                    "fault": fault, "site": site, "in_file": where}
+            st.record(case, key=json.dumps(case, sort_keys=True))
+            status, res = resolve_tree(bad)
+            if status == "ok":
+                st.fail("an uninlinable require call was accepted silently", case)
+            elif status != "dep":
+                st.fail(f"uninlinable require raised {status}: {res!r} instead of InvalidDependencyError", case)
+            elif res.token.line != line_no:
+                st.fail("InvalidDependencyError does not designate the offending call", dict(case, token_line=res.token.line, expected_line=line_no))
+    st2 = ctx.stream("look-alike calls are left untouched")
+    for i in range(ctx.n(20, 300)):
+        tree = make_file_tree(r, faults=False)
+        tree["files"]["main.lua"] += "o:require('does.not.exist')\nt.require('does.not.exist')\nrequired('does.not.exist')\n_require 'x'\nlocal z = t.require\n" \
+                                     "q = {require = 1, [require] = 2}\nlocal function f(require) return require end\n"
+        case = {"kind": "filetree", **tree}
+        st2.record(case, key=json.dumps(case, sort_keys=True))
+        status, res = resolve_tree(tree)
+        if status != "ok":
+            st2.fail(f"look-alike call made resolution fail: {status} {res}", case)
+            continue
+        text = absast.abs_chunk(res)
+        for probe in ["(callstat (mcall (name o) require (str 64 6f 65 73 2e 6e 6f 74 2e 65 78 69 73 74)))",
+                      "(callstat (call (dot (name t) require) (str 64 6f 65 73 2e 6e 6f 74 2e 65 78 69 73 74)))",
+                      "(callstat (call (name required) (str 64 6f 65 73 2e 6e 6f 74 2e 65 78 69 73 74)))",
+                      "(callstat (call (name _require) (str 78)))"]:
+            if probe not in text:
+                st2.fail("a call that only looks like require was changed", dict(case, missing=probe))
+    st3 = ctx.stream("statement-level dependency cycles of length 1..3 terminate")
+    for n in (1, 2, 3):
+        for variant in range(ctx.n(4, 40)):
+            names = [f"c{i}" for i in range(n)]
+            files = {"main.lua": "begin()\nrequire('c0')\nfinish()\n"}
+            for i, nm in enumerate(names):
+                nxt = names[(i + 1) % n]
+                wrap = r.choice(["require('%s')", "do require('%s') end", "if x then require('%s') end", "function f%d() require('%%s') end" % i])
+                files[nm + r.choice([".lua", ".tl", ""])] = f"enter_{nm}()\n" + (wrap % nxt) + f"\nleave_{nm}()\n"
+            tree = {"files": files, "dirs": [], "main": "main.lua", "search": []}
+            case = {"kind": "filetree", **tree}
+            st3.record(case, key=json.dumps(case, sort_keys=True))
+            status, res = resolve_tree(tree)
+            if status != "ok":
+                st3.fail(f"statement-level cycle: {status} {res!r}", case)
+                continue
+            text = absast.abs_chunk(res)
+            for nm in names:
+                if text.count(f"(callstat (call (name enter_{nm})))") != 1:
+                    st3.fail("a file of a statement-level cycle is not inlined exactly once", dict(case, got=text[:1500]))
+                    break
+
+
+register(
+    "C12",
+    run=run_c12,
+    modules=["Tumfl.Props.C11"],
+    obligations=["Tumfl.Props.C11_roundtrip"],
+    rule="11 fault kinds x 12 syntactic sites injected into files of generated dependency trees on a real temporary directory; look-alike calls; "
+         "statement-level cycles of length 1..3; oracle: exception type, the line of the offending call, untouched look-alikes, each cycle file inlined once; "
+         "distinct = distinct (tree, fault, site, file)",
+    partial_hypotheses=["no theorem about the model resolver yet"],
+)
+
+
+# =========================================================================== C14 purity and history independence
+import copy
+import threading
+
+
+def deep_snapshot(node) -> str:
+    """everything reachable from an AST, including tokens, comments, parents (by class name) - to detect mutation by format()"""
+    seen = {}
+
+    def go(x, depth=0):
+        if isinstance(x, ASTNode):
+            if id(x) in seen:
+                return f"<ref {seen[id(x)]}>"
+            seen[id(x)] = len(seen)
+            return {"cls": type(x).__name__, **{k: go(v, depth + 1) for k, v in sorted(vars(x).items()) if k != "parent_class"},
+                    "parent": type(x.parent_class).__name__ if x.parent_class is not None else None}
+        if isinstance(x, AttributedName):
+            return {"cls": "AttributedName", "name": go(x.name), "attribute": go(x.attribute)}
+        if isinstance(x, Token):
+            return ("Token", str(x.type), repr(x.value), x.line, x.column, list(x.comment))
+        if isinstance(x, (list, tuple)):
+            return [go(y, depth + 1) for y in x]
+        if isinstance(x, Path):
+            return x.name
+        if hasattr(x, "name") and hasattr(x, "value") and not isinstance(x, (str, bytes)):
+            return str(x)
+        return repr(x)
+
+    return json.dumps(go(node), sort_keys=True, default=str)
+
+
+class ApiWorld:
+    """runs API calls; every result is rendered to a comparable string"""
+
+    def __init__(self, tree_root: Path | None):
+        self.lexers: dict[int, Lexer] = {}
+        self.root = tree_root
+
+    def call(self, op: tuple) -> str:
+        kind = op[0]
+        with quiet():
+            try:
+                if kind == "parse":
+                    return "ast:" + struct_json(tumfl.parse(op[1]))
+                if kind == "format":
+                    ast = tumfl.parse(op[1])
+                    sty = None if op[2] is None else (MinifiedStyle if op[2] == "min" else mkstyle(op[2]))
+                    before = deep_snapshot(ast)
+                    sbefore = None if sty is None else style_dict(sty)
+                    out = tumfl.format(ast, sty)
+                    if deep_snapshot(ast) != before:
+                        return "MUTATED-AST"
+                    if sty is not None and style_dict(sty) != sbefore:
+                        return "MUTATED-STYLE"
+                    if style_dict(FormattingStyle) != DEFAULT_STYLE_VALUES or style_dict(MinifiedStyle) != MINIFIED_STYLE_VALUES:
+                        return "MUTATED-BUILTIN-STYLE"
+                    return "text:" + out
+                if kind == "resolve":
+                    ast = tumfl.resolve_recursive(self.root / op[1], [self.root / s for s in op[2]])
+                    return "ast:" + struct_json(ast)
+                if kind == "lexer_new":
+                    self.lexers[op[1]] = Lexer(op[2], typed=op[3])
+                    return "ok"
+                if kind == "lexer_next":
+                    lx = self.lexers.get(op[1])
+                    if lx is None:
+                        return "no-lexer"
+                    out = []
+                    for _ in range(op[2]):
+                        t = lx.get_next_token()
+                        out.append(f"{t.type.name}:{t.value!r}@{t.line}:{t.column}")
+                    return " ".join(out)
+                if kind == "parser_typed":
+                    from tumfl.parser import Parser
+                    p = Parser(op[1], typed=True)
+                    return f"{p.current_token.type.name} {p.next_token.type.name}"
+            except TumflError as e:
+                return f"error:{type(e).__name__}:{e}"
+            except Exception as e:  # noqa: BLE001
+                return f"EXC:{type(e).__name__}:{e}"
+        return "bad-op"
+
+
+def struct_json(ast) -> str:
+    return json.dumps(struct_dump(ast), sort_keys=True, default=str)
+
+
+DEFAULT_STYLE_VALUES = style_dict(FormattingStyle)
+MINIFIED_STYLE_VALUES = style_dict(MinifiedStyle)
+
+C14_TREE = {"files": {"main.lua": "a = 1\nrequire('m')\nb = require('lib.n')\nrequire('m')\n", "m.lua": "in_m()\n", "lib/n.lua": "return {n = 1}\n",
+                      "bad.lua": "require('missing')\n"}, "dirs": [], "main": "main.lua", "search": []}
+
+
+def random_history(r: random.Random, n: int) -> list[tuple]:
+    progs_ok = ["x = 1 + 2 * 3", "local is, as = 1, 2 return is + as", "for i = 1, 2 do print(i) end -- c", "f'as' ; g\"is\"", "t = {1, [2] = 3, x = 4}",
+                "while x do --[[ c ]] break end", "function a.b:c(...) return ... end"]
+    progs_bad = ["x = ", "x = 'abc", "end", "x = 1 end y = 2", "f(", "x = 0x", "local function", "a.b", "x = \"\\q\""]
+    typed_text = "x as y is z as is"
+    ops = []
+    nlex = 0
+    for _ in range(n):
+        k = r.random()
+        if k < 0.2:
+            ops.append(("parse", r.choice(progs_ok)))
+        elif k < 0.35:
+            ops.append(("parse", r.choice(progs_bad)))
+        elif k < 0.55:
+            ops.append(("format", r.choice(progs_ok), r.choice([None, "min", dict(ADD_ALL_BRACKETS=True, LINE_WIDTH=20), dict(INDENTATION="  ", KEEP_SEMICOLON=True)])))
+        elif k < 0.65:
+            ops.append(("resolve", r.choice(["main.lua", "main.lua", "bad.lua"]), []))
+        elif k < 0.8:
+            ops.append(("lexer_new", nlex, typed_text, r.random() < 0.5))
+            nlex += 1
+        elif k < 0.95 and nlex:
+            ops.append(("lexer_next", r.randrange(nlex), r.choice([1, 1, 2])))
+        else:
+            ops.append(("parser_typed", r.choice(["x as y", "is = 1", "local as"])))
+    return ops
+
+
+def isolated_result(op: tuple, history: list[tuple], root: Path) -> str:
+    """the result the same call gives in a fresh world where only the calls on the same lexer instance are replayed"""
+    w = ApiWorld(root)
+    if op[0] == "lexer_next":
+        res = "no-lexer"
+        for h in history:
+            if h[0] == "lexer_new" and h[1] == op[1]:
+                w.call(h)
+            elif h[0] == "lexer_next" and h[1] == op[1]:
+                res = w.call(h)
+        return res
+    return w.call(op)
+
+
+def run_c14(ctx: fw.Ctx) -> None:
+    r = ctx.rng("c14")
+    root = materialise(C14_TREE)
+    try:
+        st = ctx.stream("random histories of API calls, each result compared with the isolated call")
+        for _ in range(ctx.n(300, 6000)):
+            hist = random_history(r, r.randint(2, 12))
+            w = ApiWorld(root)
+            case = {"kind": "history", "calls": hist}
+            st.record(case, key=json.dumps(hist, sort_keys=True, default=str))
+            for i, op in enumerate(hist):
+                got = w.call(op)
+                if got.startswith(("MUTATED", "EXC")):
+                    st.fail(f"call {i} {op[0]}: {got[:200]}", case)
+                    break
+                # isolated: fresh interpreter state is approximated by a fresh world whose own lexer history is replayed
+                want = isolated_result(op, hist[: i + 1], root)
+                if got != want:
+                    st.fail(f"call {i} ({op[0]}) returns a different result than in isolation", dict(case, index=i, got=got[:500], isolated=want[:500]))
+                    break
+        st2 = ctx.stream("the same histories in 4 concurrent threads (switch interval 1e-6)")
+        import sys as _sys
+        old = _sys.getswitchinterval()
+        _sys.setswitchinterval(1e-6)
+        try:
+            for _ in range(ctx.n(40, 1500)):
+                hists = [random_history(r, r.randint(3, 10)) for _ in range(4)]
+                results: list[list[str]] = [[] for _ in hists]
+
+                def worker(i: int):
+                    w = ApiWorld(root)
+                    for op in hists[i]:
+                        results[i].append(w.call(op))
+
+                ths = [threading.Thread(target=worker, args=(i,)) for i in range(4)]
+                for t in ths:
+                    t.start()
+                for t in ths:
+                    t.join()
+                case = {"kind": "threads", "histories": hists}
+                st2.record(case, key=json.dumps(hists, sort_keys=True, default=str))
+                for i, h in enumerate(hists):
+                    for j, op in enumerate(h):
+                        want = isolated_result(op, h[: j + 1], root)
+                        if results[i][j] != want:
+                            st2.fail(f"thread {i} call {j} ({op[0]}) differs from the isolated call", dict(case, got=results[i][j][:300], isolated=want[:300]))
+                            break
+        finally:
+            _sys.setswitchinterval(old)
+    finally:
+        shutil.rmtree(root, ignore_errors=True)
+
+
+register(
+    "C14",
+    run=run_c14,
+    modules=["Tumfl.Props.C11"],
+    obligations=["Tumfl.Props.C11_roundtrip"],
+    rule="random histories of 2..12 API calls (parse ok/failing, format in 4 styles with deep snapshots of AST and style, resolve ok/failing, lexers "
+         "with typed True/False advanced lazily, typed parsers); each result compared with the same call in a fresh world; the same in 4 threads at "
+         "switch interval 1e-6; distinct = distinct histories",
+    partial_hypotheses=["thread interleavings are sampled, not enumerated; no shared-state theorem yet"],
+)
